@@ -34,6 +34,14 @@ def run(tier):
             docs_.append(("commented:%d" % j, text, loads_c(text)))
         except Exception:  # noqa: BLE001
             continue
+    # key-value blocks as the root object, and lists of blocks at the root (partial Mapfiles)
+    loads_p = impl.loader(expand_includes=False)
+    roots = ['METADATA\n "wms_title" "a b"\n "k" "v"\nEND', "VALIDATION\n 'qstring' '^[a-z]+$'\nEND", 'CONNECTIONOPTIONS\n "FLATTEN" "YES"\n "A" "1"\nEND',
+             'CLASS\n NAME "a"\n STYLE\n WIDTH 1\n END\nEND\nCLASS\n NAME "bb"\n MAXSCALEDENOM 0\nEND',
+             'METADATA\n "a" "b"\nEND\nLAYER\n NAME "x"\n TYPE POINT\n METADATA\n "c" "d"\n END\nEND',
+             'LAYER\n NAME "x"\n MINSCALEDENOM 0\n TEMPLATE ""\n TYPE POINT\nEND']
+    for j, text in enumerate(roots):
+        docs_.append(("root:%d" % j, text, loads_p(text)))
     for di, (tid, text, d) in enumerate(docs_):
         is_corpus = tid.startswith("corpus")
         use = cover if (quick or is_corpus) else sets
@@ -47,7 +55,7 @@ def run(tier):
             dd = copy.deepcopy(d) if o["separate_complex_types"] else d
             ck.count()
             try:
-                out = impl.PrettyPrinter(**kw).pprint(dd)
+                out = impl.fresh_dumps(dd, **kw)
             except Exception as ex:  # noqa: BLE001
                 ck.violation("C16|dumps-raised|%s" % type(ex).__name__, "dumps raised %s" % ex, {"text": text, "opts": o})
                 continue
